@@ -224,6 +224,14 @@ def hostile(base, word):
         doc = doc[:len(doc) // 2]
     elif 'truncate_before_close' in word:
         doc = doc[:doc.rfind('</')]
+    bad = [w for w in word if w.startswith('bad_')]
+    if bad:
+        i = doc.find('>', doc.find('<saml:Issuer')) if '<saml:Issuer' in doc else doc.find('>')
+        head, tail = doc[:i + 1], doc[i + 1:]
+        if bad[0] == 'bad_utf16_surrogate':
+            return b'\xff\xfe' + head.encode('utf-16-le') + b'\x00\xdc' + tail.encode('utf-16-le')
+        junk = {'bad_utf8_byte': b'\xff', 'bad_utf8_overlong': b'\xc0\xaf', 'bad_utf8_cut': b'\xe4\xb8'}[bad[0]]
+        return head.encode('utf-8') + junk + tail.encode('utf-8')
     if 'decl_latin1' in word:
         return u'<?xml version="1.0" encoding="ISO-8859-1"?>' + doc          # handed over as text
     if 'decl_utf16text' in word:
@@ -330,8 +338,8 @@ def main():
         # an entry point that never returns an object, even for harmless documents, is not really exercised
         raise fw.Machinery('entry points that never accepted their own base document: %s' % silent)
     chk.cov['entry_points'] = names
-    chk.cov['rule'] = ('static inventory of XML-parsing call sites (AST) + words of up to %d hostile constructs (16 constructs: entity '
-                      'declarations of five kinds, external DTD, XInclude, stylesheet PI, UTF-16, BOM, three truncations, non-XML, empty) '
+    chk.cov['rule'] = ('static inventory of XML-parsing call sites (AST) + words of up to %d hostile constructs (20 constructs: entity '
+                      'declarations of five kinds, external DTD, XInclude, stylesheet PI, UTF-16, BOM, three truncations, four kinds of encoding-invalid bytes, non-XML, empty) '
                       'x %d entry points extracted from the code (generated *_from_string functions of every schema module, SOAP '
                       'parsers, SP / IdP parse functions per binding, metadata load, the signature pre-check); audit-hook canaries for '
                       'file and network access' % (3 if thorough else 2, len(names)))
